@@ -241,6 +241,36 @@ Proof.
   destruct (koi8r b) as [k|]; [|discriminate]. apply N.eqb_eq in R. subst. eauto.
 Qed.
 
+Lemma nth_error_Some_lt {A} (l : list A) n x : nth_error l n = Some x -> (n < length l)%nat.
+Proof. intros H. apply nth_error_Some. rewrite H. discriminate. Qed.
+
+(* on 0xC0-0xFF the coincidence with KOI8-R is exact in BOTH directions: the row of such a byte is the
+   single KOI8-R character, so no other character (an alias) is accepted for a byte of that range *)
+Definition koi8_row_ok (b : N) : bool :=
+  if 192 <=? b then
+    match nth_error decoding_table (N.to_nat b), koi8r b with
+    | Some [c], Some k => c =? k
+    | _, _ => false
+    end
+  else true.
+Lemma koi8_rows_sweep : forallb koi8_row_ok (nrange 256) = true.
+Proof. vm_compute. reflexivity. Qed.
+
+Theorem koi8_exact c b : bk_encode_char c = Some b -> 192 <= b -> koi8r b = Some c.
+Proof.
+  intros He Hb.
+  destruct (encode_char_sound decoding_table c b He) as [r [Hr Hin]].
+  assert (Hlt : b < 256).
+  { destruct (N.lt_ge_cases b 256) as [L|G]; [exact L|].
+    exfalso. apply nth_error_Some_lt in Hr.
+    assert (length decoding_table = 256%nat) by (vm_compute; reflexivity). lia. }
+  pose proof (nrange_forallb 256 koi8_row_ok koi8_rows_sweep b Hlt) as R. unfold koi8_row_ok in R.
+  apply N.leb_le in Hb. rewrite Hb in R. rewrite Hr in R.
+  destruct r as [|c0 [|c1 r']]; try discriminate.
+  destruct (koi8r b) as [k|]; [|discriminate]. apply N.eqb_eq in R. subst k.
+  destruct Hin as [Hin|[]]. subst. reflexivity.
+Qed.
+
 (* every character outside the table is refused, whatever its code point *)
 Theorem refuses_outside c : ~ In c bk_all_chars -> bk_encode_char c = None.
 Proof.
